@@ -12,6 +12,7 @@ correspondence = model(describe) vs run_impl (exact, ordered);  oracle = expect 
 """
 import copy
 import os
+import random
 import re
 from fractions import Fraction
 
@@ -20,6 +21,8 @@ import numpy as np
 from ..lib import core
 from ..lib.core import Failure, Disagreement
 from ..extract import validator as _ex
+from ..extract import units as _exu
+from . import c14_units as SI
 
 PROP = "C14"
 LEAN_MODULE = "NixModel.Props.C14"
@@ -59,40 +62,34 @@ READY = True
 
 
 def extract(repo):
-    return _ex.extract(repo)
+    """the validator catalogue and - units.py is an anchor of C14 as well - the unit tables / regex shapes the model's
+    is_atomic / is_si / scalable are instantiated with"""
+    out = dict(_ex.extract(repo))
+    out.update(_exu.extract(repo))
+    return out
 
 
 # ---------------------------------------------------------------------------------------
-# hand-labelled units (base quantity incl. power; None = not usable on a dimension)
+# units: the oracle's own reading of SI unit strings (harness/props/c14_units.py, three-valued: None = undecided)
 
-ATOMIC = {"s": "s", "ms": "s", "us": "s", "ns": "s", "ks": "s",
-          "V": "V", "mV": "V", "uV": "V", "kV": "V",
-          "A": "A", "mA": "A", "nA": "A", "pA": "A",
-          "Hz": "Hz", "kHz": "Hz", "MHz": "Hz",
-          "m": "m", "mm": "m", "cm": "m", "km": "m",
-          "K": "K", "mK": "K", "mol": "mol", "mmol": "mol", "N": "N", "Pa": "Pa", "kPa": "Pa",
-          "m^2": "m^2", "mm^2": "m^2", "s^-1": "s^-1", "ms^-1": "s^-1", "Ohm": "Ohm", "kOhm": "Ohm"}
-COMPOUND = ["mV/s", "m*s^-1", "V*A", "N*m", "mV*ms^-1"]          # SI, not atomic
-NONSI = ["sillyvolts", "abc", "furlong", "xyz", "volt"]
-BASES = sorted(set(ATOMIC.values()))
+SI.selftest()
+NONSI = SI.NON_SI
 
 
 def is_atomic_tbl(u):
-    return u in ATOMIC
+    return SI.is_atomic(u)
 
 
 def is_si_tbl(u):
-    return u in ATOMIC or u in COMPOUND
+    return SI.is_si(u)
 
 
-def convertible_tbl(a, b):
-    if a in ATOMIC and b in ATOMIC:
-        return ATOMIC[a] == ATOMIC[b]
-    return a in COMPOUND and a == b
-
-
-def variants(base):
-    return [u for u, b in ATOMIC.items() if b == base]
+def pair_ok(u, ru):
+    """tag unit u against the unit ru of the descriptor at the same position: True = fine, False = unconvertible,
+    None = the property text does not decide"""
+    if u == "" and ru == "":
+        return True
+    return SI.convertible(u, ru)
 
 
 # ---------------------------------------------------------------------------------------
@@ -102,23 +99,38 @@ def _x():
     return {"del": [], "empty": []}
 
 
-def gen_dims(rng, shape):
-    dims = []
-    for n in shape:
-        k = rng.choice(["range", "sample", "set"]) if n > 0 else rng.choice(["sample", "set"])
-        if k == "range":
-            t0 = rng.choice([-2.0, 0.0, 0.5, 10.0])
-            ticks = []
-            for _ in range(n):
-                ticks.append(t0)
-                t0 += rng.choice([0.25, 0.5, 1.0, 3.0])
-            dims.append({"k": "range", "ticks": ticks, "unit": rng.choice([None] + list(ATOMIC)), "idx": None})
-        elif k == "sample":
-            dims.append({"k": "sample", "interval": rng.choice([0.125, 0.5, 1.0, 2.0, 10.0, 3]),
-                         "unit": rng.choice([None, None] + list(ATOMIC)), "idx": None})
-        else:
-            dims.append({"k": "set", "labels": rng.choice([0, n]), "idx": None})
-    return dims
+TICK0 = [-2.0, 0.0, 0.5, 10.0]
+TICKD = [0.25, 0.5, 1.0, 3.0]
+INTERVALS = [0.125, 0.5, 1.0, 2.0, 10.0, 3]
+
+
+def gen_dim(rng, n, q=False, odd=False):
+    """a well-formed descriptor for a data dimension of n entries.  q: False = free choice; None = no unit (any
+    kind); an atom (prefix, base, power) = range / sampled descriptor in a unit of that quantity"""
+    kinds = ["range", "sample", "set"] if n > 0 else ["sample", "set"]
+    if q is False:
+        k = rng.choice(kinds)
+        unit = SI.spell(SI.atom(rng, odd)) if rng.random() < 0.6 else None
+    elif q is None:
+        k = rng.choice(kinds)
+        unit = None
+    else:
+        k = rng.choice([x for x in kinds if x != "set"])
+        unit = SI.spell(SI.variant(rng, q))
+    if k == "range":
+        t0 = rng.choice(TICK0)
+        ticks = []
+        for _ in range(n):
+            ticks.append(t0)
+            t0 += rng.choice(TICKD)
+        return {"k": "range", "ticks": ticks, "unit": unit, "idx": None}
+    if k == "sample":
+        return {"k": "sample", "interval": rng.choice(INTERVALS), "unit": unit, "idx": None}
+    return {"k": "set", "labels": rng.choice([0, n]), "idx": None}
+
+
+def gen_dims(rng, shape, odd=False):
+    return [gen_dim(rng, n, False, odd) for n in shape]
 
 
 def dim_unit(d):
@@ -127,44 +139,50 @@ def dim_unit(d):
     return ""
 
 
-def gen_array(rng, rank=None, minlen=0):
-    rank = rank or rng.choice([1, 1, 2, 2, 3])
+def gen_shape(rng, rank, minlen=0):
     shape = [rng.choice([1, 2, 3, 4] if rng.random() < 0.93 else [0]) for _ in range(rank)]
-    shape = [max(s, minlen) for s in shape]
-    return {"x": _x(), "shape": shape, "dims": gen_dims(rng, shape)}
+    return [max(s, minlen) for s in shape]
+
+
+def gen_array(rng, rank=None, minlen=0, odd=False):
+    rank = rank or rng.choice([1, 1, 2, 2, 3])
+    shape = gen_shape(rng, rank, minlen)
+    return {"x": _x(), "shape": shape, "dims": gen_dims(rng, shape, odd)}
 
 
 def plain_array(shape):
     return {"x": _x(), "shape": list(shape), "dims": [{"k": "set", "labels": 0, "idx": None} for _ in shape]}
 
 
-def units_for(rng, arrays, refs):
-    """units convertible to every referenced array (None if the references disagree)"""
-    rank = len(arrays[refs[0]]["shape"])
-    out = []
-    for i in range(rank):
-        us = [dim_unit(arrays[r]["dims"][i]) for r in refs]
-        if all(u == "" for u in us):
-            out.append("")
-        elif all(u != "" for u in us) and len(set(ATOMIC[u] for u in us)) == 1:
-            out.append(rng.choice(variants(ATOMIC[us[0]])))
-        else:
-            return None
-    return out
+def gen_family(rng, odd=False, rank=None):
+    """arrays that can be referenced together: a rank and, per data dimension, a quantity (or none)"""
+    rank = rank or rng.choice([1, 1, 2, 2, 3])
+    return {"rank": rank, "q": [SI.atom(rng, odd) if rng.random() < 0.65 else None for _ in range(rank)], "members": []}
 
 
-def gen_refs(rng, arrays, cands):
-    """0-2 references of equal rank with compatible dimension units, plus fitting units"""
-    if not cands or rng.random() < 0.2:
-        return [], None
-    first = rng.choice(cands)
-    refs = [first]
-    same = [c for c in cands if c != first and len(arrays[c]["shape"]) == len(arrays[first]["shape"])]
-    rng.shuffle(same)
-    for c in same[:2]:
-        if rng.random() < 0.6 and units_for(rng, arrays, refs + [c]) is not None:
-            refs.append(c)
-    return refs, units_for(rng, arrays, refs)
+def family_array(rng, fam, odd=False):
+    shape = gen_shape(rng, fam["rank"])
+    return {"x": _x(), "shape": shape, "dims": [gen_dim(rng, n, q, odd) for n, q in zip(shape, fam["q"])]}
+
+
+def family_units(rng, fam):
+    return ["" if q is None else SI.spell(SI.variant(rng, q)) for q in fam["q"]]
+
+
+def free_units(rng, n):
+    return [rng.choice([SI.spell(SI.atom(rng)), SI.spell(SI.atom(rng)), SI.compound(rng), ""]) for _ in range(n)]
+
+
+def gen_refs(rng, fams, want=0):
+    """0-4 references out of one family (so ranks and units fit), and the units that fit them"""
+    fams = [f for f in fams if len(f["members"]) >= max(want, 1)]
+    if not fams or (want == 0 and rng.random() < 0.2):
+        return [], None, None
+    fam = rng.choice(fams)
+    n = len(fam["members"])
+    k = max(want, rng.choice([1, 1, 2, 2, 3, 4]))
+    refs = rng.sample(fam["members"], min(k, n))
+    return refs, family_units(rng, fam), fam
 
 
 def gen_feats(rng, arrays):
@@ -186,30 +204,42 @@ def gen_sections(rng, depth):
              "children": gen_sections(rng, depth - 1)} for _ in range(rng.choice([0, 1, 2]))]
 
 
-def gen_block(rng, small):
-    arrays = [gen_array(rng) for _ in range(rng.choice([1, 2] if small else [2, 3, 4]))]
-    data_idx = list(range(len(arrays)))
+def gen_block(rng, small, odd=False, want=0):
+    """want = number of references the first tag and the first multi-tag must have"""
+    arrays = []
+    fams = []
+    for fi in range(rng.choice([1, 2] if small else [2, 3])):
+        fam = gen_family(rng, odd)
+        size = rng.choice([1, 2, 3] if small else [2, 3, 4])
+        if fi == 0:
+            size = max(size, want)
+        for _ in range(size):
+            arrays.append(family_array(rng, fam, odd))
+            fam["members"].append(len(arrays) - 1)
+        fams.append(fam)
+    for _ in range(rng.choice([0, 1])):
+        arrays.append(gen_array(rng, odd=odd))
     tags, mtags = [], []
-    for _ in range(rng.choice([1, 2] if small else [1, 2, 3])):
-        refs, units = gen_refs(rng, arrays, data_idx)
+    for ti in range(rng.choice([1, 2] if small else [1, 2, 3])):
+        refs, units, fam = gen_refs(rng, fams, want if ti == 0 else 0)
         if refs:
-            rank = len(arrays[refs[0]]["shape"])
+            rank = fam["rank"]
             tags.append({"x": _x(), "pos": rank, "ext": rng.choice([0, rank]), "units": units, "refs": refs,
                          "feats": gen_feats(rng, arrays)})
         else:
             n = rng.choice([1, 2, 3])
             tags.append({"x": _x(), "pos": n, "ext": rng.choice([0, n]),
-                         "units": rng.choice([[], [rng.choice(list(ATOMIC) + COMPOUND) for _ in range(n)]]),
+                         "units": rng.choice([[], free_units(rng, n)]),
                          "refs": [], "feats": gen_feats(rng, arrays)})
-    for _ in range(rng.choice([1] if small else [1, 2])):
-        refs, units = gen_refs(rng, arrays, data_idx)
+    for ti in range(rng.choice([1] if small else [1, 2])):
+        refs, units, fam = gen_refs(rng, fams, want if ti == 0 else 0)
         npos = rng.choice([1, 2, 3])
         if refs:
-            rank = len(arrays[refs[0]]["shape"])
+            rank = fam["rank"]
             shp = [npos] if (rank == 1 and rng.random() < 0.6) else [npos, rank]
         else:
             shp = rng.choice([[npos], [npos, rng.choice([1, 2, 3])]])
-            units = rng.choice([[], [rng.choice(list(ATOMIC))]])
+            units = rng.choice([[], free_units(rng, 1)])
         arrays.append(plain_array(shp))
         pos = len(arrays) - 1
         ext = None
@@ -222,9 +252,46 @@ def gen_block(rng, small):
             "tags": tags, "mtags": mtags, "sources": gen_sources(rng, 2 if small else 3)}
 
 
-def gen_recipe(rng, small=False):
-    return {"epoch0": False, "blocks": [gen_block(rng, small) for _ in range(1 if small else rng.choice([1, 2]))],
+def gen_recipe(rng, small=False, odd=False, want=0):
+    return {"epoch0": False,
+            "blocks": [gen_block(rng, small, odd, want if bi == 0 else 0)
+                       for bi in range(1 if small else rng.choice([1, 2]))],
             "sections": gen_sections(rng, 2 if small else 3)}
+
+
+def gen_unit_sweep(rng, n, odd=False):
+    """one block of n rank-1 arrays and n tags / multi-tags: each tag references 1-3 arrays measuring one quantity in
+    differently prefixed units; about half of the tags get one reference in a unit of another quantity (drawn from
+    the complete SI tables, with a bias to look-alikes) or a unit that is no SI unit at all; a few arrays carry a
+    non-atomic dimension unit"""
+    arrays, tags, mtags = [], [], []
+    for i in range(n):
+        q = SI.atom(rng, odd, homograph=0.6)
+        nref = rng.choice([1, 1, 2, 3])
+        refs = []
+        for _ in range(nref):
+            arrays.append({"x": _x(), "shape": [2], "dims": [gen_dim(rng, 2, q, odd)]})
+            refs.append(len(arrays) - 1)
+        unit = SI.spell(SI.variant(rng, q))
+        what = rng.choice(["ok", "ok", "ref", "ref", "tag", "tagnonsi", "refnonatomic"])
+        if what == "ref":
+            arrays[rng.choice(refs)]["dims"][0]["unit"] = SI.unconvertible(rng, q, atomic_only=True)
+        elif what == "tag":
+            unit = SI.unconvertible(rng, q, atomic_only=True)
+        elif what == "tagnonsi":
+            unit = rng.choice(NONSI)
+        elif what == "refnonatomic":
+            arrays[rng.choice(refs)]["dims"][0]["unit"] = rng.choice([rng.choice(NONSI), SI.compound(rng)])
+        if i % 2 == 0:
+            tags.append({"x": _x(), "pos": 1, "ext": rng.choice([0, 1]), "units": [unit], "refs": refs, "feats": []})
+        else:
+            if not mtags or rng.random() < 0.3:
+                arrays.append(plain_array([rng.choice([1, 2])]))
+                pos = len(arrays) - 1
+            mtags.append({"x": _x(), "pos": pos, "ext": None, "units": [unit], "refs": refs, "feats": [],
+                          "unlink": False})
+    blk = {"x": _x(), "groups": [], "arrays": arrays, "tags": tags, "mtags": mtags, "sources": []}
+    return {"epoch0": False, "blocks": [blk], "sections": []}
 
 
 # ---------------------------------------------------------------------------------------
@@ -272,9 +339,25 @@ def _sections(r):
     return out
 
 
-def eligible(r, scope="property"):
+def _atom_of(u, rng):
+    """the reading of unit string u as an atom (a fresh atom when it has none)"""
+    ps = SI.parses(u) if u else []
+    return ps[0] if ps else SI.atom(rng)
+
+
+def bad_dim_units(rng):
+    """three dimension units that are not atomic SI units: a look-alike, a product of units, anything"""
+    return [rng.choice(NONSI), SI.compound(rng), rng.choice(NONSI)]
+
+
+REF_UNIT_MODES = ["base", "homograph", "homograph", "prefixhomograph", "power", "drop"]
+
+
+def eligible(r, scope="property", rng=None):
     """all injections applicable to recipe r.  scope 'property' = the inconsistencies the property statement lists;
-    'all' adds the remaining catalogue entries / raising reads (correspondence only)"""
+    'all' adds the remaining catalogue entries / raising reads (correspondence only).  Unit strings an injection
+    writes are drawn here (from rng), so an injection is a complete, replayable description of the mutation"""
+    rng = rng or random.Random(0)
     inj = [["epoch0"]] if scope == "all" else []
     for kind, path, _x_ in _entities(r):
         for a in ENT_ATTRS:
@@ -294,7 +377,7 @@ def eligible(r, scope="property"):
                     if len(d["ticks"]) >= 2:
                         inj += [["ticks_unsorted", p], ["ticks_equal", p]]
                 if d["k"] in ("range", "sample"):
-                    for u in (NONSI[0], COMPOUND[0], NONSI[1]):
+                    for u in bad_dim_units(rng):
                         inj.append(["dim_unit", p, u])
                 if d["k"] == "sample":
                     for v in (None, 0, -0.5):
@@ -315,7 +398,26 @@ def eligible(r, scope="property"):
                             ["mt_ext_shape", p, "rows"], ["mt_ext_shape", p, "cols"], ["mt_unlink_pos", p]]
                 inj += [["units_len", kind, p, 1], ["units_len", kind, p, -1]]
                 for ui in range(max(len(t["units"]), 1)):
-                    inj += [["unit_unconv", kind, p, ui], ["unit_nonsi", kind, p, ui]]
+                    cur = t["units"][ui] if ui < len(t["units"]) else ""
+                    inj += [["unit_unconv", kind, p, ui,
+                             SI.unconvertible(rng, _atom_of(cur, rng), atomic_only=True) if cur
+                             else SI.spell(SI.atom(rng))],
+                            ["unit_nonsi", kind, p, ui, rng.choice(NONSI)]]
+                # one reference (first, middle, last) made inconsistent with the tag, the others untouched
+                nref = len(t["refs"])
+                for k, ri in enumerate(t["refs"]):
+                    a = b["arrays"][ri]
+                    where = "only" if nref == 1 else ("first" if k == 0 else ("last" if k == nref - 1 else "middle"))
+                    for di in range(min(len(a["dims"]), len(t["units"]))):
+                        u = t["units"][di]
+                        if u:
+                            inj.append(["ref_unit", kind, p, k, di, rng.choice(REF_UNIT_MODES),
+                                        SI.unconvertible(rng, _atom_of(u, rng), rng.choice(REF_UNIT_MODES[:5]),
+                                                         atomic_only=True), where])
+                        else:
+                            inj.append(["ref_unit", kind, p, k, di, "set", SI.spell(SI.atom(rng)), where])
+                    inj += [["ref_rank", kind, p, k, 1, where], ["ref_rank", kind, p, k, -1, where],
+                            ["ref_dims", kind, p, k, 1, where], ["ref_dims", kind, p, k, -1, where]]
                 for fi, _f in enumerate(t["feats"]):
                     inj.append(["feat_del", kind, p, fi, "created_at"])
                     inj.append(["feat_del", kind, p, fi, "entity_id"])
@@ -449,6 +551,54 @@ def apply_inj(r, inj):
                     shp = [pshape[0], (1 if len(pshape) == 1 else pshape[1]) + 1]
                 b["arrays"].append(plain_array(shp))
                 t["ext"] = len(b["arrays"]) - 1
+        elif op in ("ref_unit", "ref_rank", "ref_dims"):
+            b = r["blocks"][inj[2][0]]
+            t = b[inj[1]][inj[2][1]]
+            k = inj[3]
+            src = b["arrays"][t["refs"][k]]
+            if op == "ref_unit":
+                # the reference becomes a private copy of the array whose descriptor `di` is in another unit
+                di, mode, unit = inj[4], inj[5], inj[6]
+                a = copy.deepcopy(src)
+                a["x"] = _x()
+                d = a["dims"][di]
+                if mode == "drop":
+                    if not dim_unit(d):
+                        return None
+                    d["unit"] = None
+                else:
+                    if d["k"] == "set":
+                        d = {"k": "sample", "interval": 0.5, "unit": None, "idx": d["idx"]}
+                        a["dims"][di] = d
+                    if d["unit"] == unit:
+                        return None
+                    d["unit"] = unit
+            elif op == "ref_rank":
+                # the reference becomes a new array of another rank (its leading descriptors as before)
+                rank = len(src["shape"]) + inj[4]
+                if rank < 1 or rank > 4:
+                    return None
+                a = copy.deepcopy(src)
+                a["x"] = _x()
+                if inj[4] > 0:
+                    a["shape"] = a["shape"] + [2]
+                    a["dims"] = a["dims"] + [{"k": "set", "labels": 0, "idx": None}]
+                else:
+                    a["shape"] = a["shape"][:-1]
+                    a["dims"] = a["dims"][:len(a["shape"])]
+            else:
+                # the reference becomes a copy with a surplus / a missing descriptor
+                a = copy.deepcopy(src)
+                a["x"] = _x()
+                if inj[4] > 0:
+                    a["dims"] = a["dims"] + [{"k": "sample", "interval": 0.5, "unit": "ms", "idx": None}]
+                else:
+                    if not a["dims"]:
+                        return None
+                    a["dims"] = a["dims"][:-1]
+            b["arrays"].append(a)
+            t["refs"] = list(t["refs"])
+            t["refs"][k] = len(b["arrays"]) - 1
         elif op in ("units_len", "unit_unconv", "unit_nonsi"):
             b = r["blocks"][inj[2][0]]
             t = b[inj[1]][inj[2][1]]
@@ -467,14 +617,9 @@ def apply_inj(r, inj):
                         return None
                     units = [""]
                     ui = 0
-                if op == "unit_nonsi":
-                    units[ui] = NONSI[1]
-                else:
-                    cur = units[ui]
-                    base = ATOMIC.get(cur)
-                    units[ui] = "V" if base == "s" or cur == "" and False else ("s" if base != "s" else "V")
-                    if units[ui] == cur:
-                        return None
+                if units[ui] == inj[4]:
+                    return None
+                units[ui] = inj[4]
                 t["units"] = units
         elif op in ("feat_del", "feat_unlink", "feat_empty"):
             b = r["blocks"][inj[2][0]]
@@ -585,23 +730,27 @@ def _feats_expect(b, feats):
     return out
 
 
-def _units_expect(b, t, refs):
+def _units_expect(b, t, refs, und):
+    """unit messages of a tag / multi-tag; messages the property text leaves undecided are added to `und`"""
     out = set()
     units = list(t["units"])
     if refs:
         if any(len(a["dims"]) != len(units) for a in refs):
             out.add(("ReferenceUnitsMismatch",))
-        for a in refs:
-            for u, d in zip(units, _dims_in_order(a)):
-                ru = dim_unit(d)
-                if not ((u == "" and ru == "") or (is_si_tbl(u) and is_si_tbl(ru) and convertible_tbl(u, ru))):
-                    out.add(("ReferenceUnitsIncompatible",))
-    if any(u and not is_si_tbl(u) for u in units):
+        verdicts = [pair_ok(u, dim_unit(d)) for a in refs for u, d in zip(units, _dims_in_order(a))]
+        if any(v is False for v in verdicts):
+            out.add(("ReferenceUnitsIncompatible",))
+        elif any(v is None for v in verdicts):
+            und.add(("ReferenceUnitsIncompatible",))
+    si = [is_si_tbl(u) for u in units if u]
+    if any(v is False for v in si):
         out.add(("InvalidUnit",))
+    elif any(v is None for v in si):
+        und.add(("InvalidUnit",))
     return out
 
 
-def _tag_expect(b, t):
+def _tag_expect(b, t, und):
     out = _ent_expect(t["x"])
     refs = [b["arrays"][i] for i in t["refs"]]
     if t["pos"] == 0:
@@ -612,19 +761,19 @@ def _tag_expect(b, t):
         out.add(("PositionDimensionMismatch",))
     if t["ext"] and any(len(a["shape"]) != t["ext"] for a in refs):
         out.add(("ExtentDimensionMismatch",))
-    return out | _units_expect(b, t, refs) | _feats_expect(b, t["feats"])
+    return out | _units_expect(b, t, refs, und) | _feats_expect(b, t["feats"])
 
 
 def _second(shape):
     return 1 if len(shape) == 1 else shape[1]
 
 
-def _mtag_expect(b, t):
+def _mtag_expect(b, t, und):
     out = _ent_expect(t["x"])
     refs = [b["arrays"][i] for i in t["refs"]]
     if t["unlink"]:
         out.add(("NoPositions",))
-        return out | _units_expect(b, t, refs) | _feats_expect(b, t["feats"])
+        return out | _units_expect(b, t, refs, und) | _feats_expect(b, t["feats"])
     ps = b["arrays"][t["pos"]]["shape"]
     if ps[0] == 0:
         out.add(("NoPositions",))
@@ -637,12 +786,14 @@ def _mtag_expect(b, t):
                 out.add(("PositionsExtentsMismatch",))
             if any(len(a["shape"]) != _second(es) for a in refs):
                 out.add(("ExtentsDimensionMismatch",))
-    return out | _units_expect(b, t, refs) | _feats_expect(b, t["feats"])
+    return out | _units_expect(b, t, refs, und) | _feats_expect(b, t["feats"])
 
 
-def expect(r):
-    """{(kind, path tuple): set of messages} the property requires (non-empty sets only)"""
+def expect(r, undecided=None):
+    """{(kind, path tuple): set of messages} the property requires (non-empty sets only); `undecided` (a dict) receives
+    per object the messages the property text does not decide (differently spelled powers ...)"""
     out = {}
+    undecided = {} if undecided is None else undecided
 
     def put(kind, path, msgs):
         if msgs:
@@ -656,9 +807,9 @@ def expect(r):
         for i, a in enumerate(b["arrays"]):
             put("array", [bi, i], _array_expect(a))
         for i, t in enumerate(b["tags"]):
-            put("tag", [bi, i], _tag_expect(b, t))
+            put("tag", [bi, i], _tag_expect(b, t, undecided.setdefault(("tag", (bi, i)), set())))
         for i, t in enumerate(b["mtags"]):
-            put("mtag", [bi, i], _mtag_expect(b, t))
+            put("mtag", [bi, i], _mtag_expect(b, t, undecided.setdefault(("mtag", (bi, i)), set())))
 
         def rec(srcs, pre):
             for i, s in enumerate(srcs):
@@ -1011,20 +1162,32 @@ def err_name(e):
     return "Exception"
 
 
-def run_impl(f, keys):
-    """validate() -> {"ok": [[kind, path, [msg...]], ...]} in insertion order, or {"err": class}"""
+def run_validate(f):
+    """validate() once: ("ok", [(object, [parsed message...])...] in insertion order) or ("err", class, text)"""
     try:
         res = f.validate()
     except Exception as e:
-        return {"err": err_name(e), "text": str(e)[:120]}
+        return ("err", err_name(e), str(e)[:120])
+    return ("ok", [(obj, [parse_msg(m) for m in msgs]) for obj, msgs in res["errors"].items()])
+
+
+def keyed(f, raw, keys):
+    """the validate() result with objects replaced by (kind, index path) through `keys` (entity id -> key)"""
+    if raw[0] == "err":
+        return {"err": raw[1], "text": raw[2]}
     out = []
-    for obj, msgs in res["errors"].items():
+    for obj, msgs in raw[1]:
         if obj is f:
             kind, path = "file", ()
         else:
             kind, path = keys.get(getattr(obj, "id", None), ("?", ()))
-        out.append([kind, list(path), [parse_msg(m) for m in msgs]])
+        out.append([kind, list(path), msgs])
     return {"ok": out}
+
+
+def run_impl(f, keys):
+    """validate() -> {"ok": [[kind, path, [msg...]], ...]} in insertion order, or {"err": class}"""
+    return keyed(f, run_validate(f), keys)
 
 
 def same(model, impl):
@@ -1044,23 +1207,123 @@ def inj_kind(inj):
         return "%s%s.%s" % (inj[0], ".nested" if len(inj[1]) > 1 else "", inj[-1])
     if inj[0] == "feat_del":
         return "%s.%s" % (inj[0], inj[-1])
+    if inj[0] in ("ref_unit", "ref_rank", "ref_dims"):
+        return "%s.%s.%s" % (inj[0], inj[1], inj[-1])
     return inj[0]
 
 
+def apply_all(base, injs):
+    m = base
+    for i in injs:
+        m = apply_inj(m, i)
+        if m is None:
+            return None
+    return m
+
+
+SUBSETS = ["first", "last", "middle", "notlast", "notfirst", "random", "random", "all"]
+
+
+def pick_subset(rng, n):
+    """a non-empty subset of range(n), by position pattern (first / last / inner / all but one end / any / all)"""
+    how = rng.choice(SUBSETS)
+    if how == "first":
+        return [0]
+    if how == "last":
+        return [n - 1]
+    if how == "middle":
+        return [rng.randrange(1, n - 1)] if n > 2 else [0]
+    if how == "notlast":
+        return list(range(n - 1)) or [0]
+    if how == "notfirst":
+        return list(range(1, n)) or [0]
+    if how == "all":
+        return list(range(n))
+    return sorted(rng.sample(range(n), rng.randint(1, n)))
+
+
+def gen_multiref(rng, scope, odd=False):
+    """a tag / multi-tag with 2-4 references of which a subset (first only, last only, an inner one, all but the last,
+    ...) is inconsistent with the tag in one per-reference rule (unit of one or several descriptors, rank, descriptor
+    count); everything else in the file stays well-formed"""
+    for _ in range(20):
+        base = gen_recipe(rng, small=True, odd=odd, want=rng.choice([2, 3, 3, 4]))
+        el = [i for i in eligible(base, scope, rng) if i[0] in ("ref_unit", "ref_rank", "ref_dims")]
+        tags = sorted(set((i[1], tuple(i[2])) for i in el
+                          if len(base["blocks"][i[2][0]][i[1]][i[2][1]]["refs"]) >= 2))
+        if not tags:
+            continue
+        kind, p = rng.choice(tags)
+        nref = len(base["blocks"][p[0]][kind][p[1]]["refs"])
+        rule = rng.choice(["ref_unit", "ref_unit", "ref_unit", "ref_rank", "ref_dims"])
+        injs = []
+        for k in pick_subset(rng, nref):
+            c = [i for i in el if i[0] == rule and i[1] == kind and tuple(i[2]) == p and i[3] == k]
+            if not c:
+                continue
+            if rule == "ref_unit" and rng.random() < 0.3:
+                # several descriptors of the same reference
+                dis = sorted(set(i[4] for i in c))
+                for di in pick_subset(rng, len(dis)):
+                    injs.append(rng.choice([i for i in c if i[4] == dis[di]]))
+            else:
+                injs.append(rng.choice(c))
+        m = apply_all(base, injs) if injs else None
+        if m is not None:
+            return ("multiref", m, injs)
+    return None
+
+
+def gen_multiobj(rng, scope, odd=False):
+    """one kind of inconsistency injected at a subset of the sites that can have it (several descriptors of one array,
+    several arrays, tags, features, properties, entities): per-object rules must report each of them and no other"""
+    for _ in range(20):
+        base = gen_recipe(rng, small=True, odd=odd)
+        el = eligible(base, scope, rng)
+        by = {}
+        for i in el:
+            by.setdefault(inj_kind(i).split(".")[0] if i[0].startswith("ref_") else inj_kind(i), []).append(i)
+        kinds = sorted(k for k, v in by.items() if len(v) >= 2)
+        if not kinds:
+            continue
+        sites = by[rng.choice(kinds)]
+        injs = [sites[j] for j in pick_subset(rng, min(len(sites), 5))]
+        m = base
+        used = []
+        for i in injs:
+            m2 = apply_inj(m, i)
+            if m2 is not None:
+                m, used = m2, used + [i]
+        if len(used) >= 2:
+            return ("multi", m, used)
+    return None
+
+
 def gen_cases(ctx, scope, n_plain, n_bases, singles_per_base, pairs_per_base, exhaustive_bases=0,
-              exhaustive_pairs=60):
+              exhaustive_pairs=60, n_multiref=0, n_multi=0, n_sweep=0, sweep_size=24):
     """[(label, recipe, [injections])]"""
     rng = ctx.rng
+    odd = scope == "all"
     cases = []
+    for _ in range(n_sweep):
+        cases.append(("unitsweep", gen_unit_sweep(rng, sweep_size, odd), []))
+    for _ in range(n_multiref):
+        c = gen_multiref(rng, scope, odd)
+        if c:
+            cases.append(c)
+    for _ in range(n_multi):
+        c = gen_multiobj(rng, scope, odd)
+        if c:
+            cases.append(c)
     for _ in range(n_plain):
-        cases.append(("wellformed", gen_recipe(rng, small=False), []))
+        cases.append(("wellformed", gen_recipe(rng, small=False, odd=odd), []))
     # every injection kind at least once per run, on a fresh small base each
     seen = set()
     tries = 0
     while tries < 40:
         tries += 1
-        base = gen_recipe(rng, small=True)
-        for inj in eligible(base, scope):
+        base = gen_recipe(rng, small=True, odd=odd, want=rng.choice([0, 2, 3]))
+        for inj in eligible(base, scope, rng):
             k = inj_kind(inj)
             if k not in seen:
                 m = apply_inj(base, inj)
@@ -1068,8 +1331,8 @@ def gen_cases(ctx, scope, n_plain, n_bases, singles_per_base, pairs_per_base, ex
                     seen.add(k)
                     cases.append(("single", m, [inj]))
     for bi in range(n_bases):
-        base = gen_recipe(rng, small=True)
-        el = eligible(base, scope)
+        base = gen_recipe(rng, small=True, odd=odd)
+        el = eligible(base, scope, rng)
         cases.append(("wellformed", base, []))
         full = bi < exhaustive_bases
         singles = el if full else rng.sample(el, min(singles_per_base, len(el)))
@@ -1084,10 +1347,9 @@ def gen_cases(ctx, scope, n_plain, n_bases, singles_per_base, pairs_per_base, ex
         else:
             pairs = [tuple(rng.sample(el, 2)) for _ in range(pairs_per_base)] if len(el) >= 2 else []
         for a, b in pairs:
-            m = apply_inj(base, a)
-            m2 = apply_inj(m, b) if m is not None else None
-            if m2 is not None:
-                cases.append(("pair", m2, [a, b]))
+            m = apply_all(base, [a, b])
+            if m is not None:
+                cases.append(("pair", m, [a, b]))
     return cases
 
 
@@ -1096,8 +1358,9 @@ def run_case(ctx, recipe):
     f, ids = build(ctx, recipe)
     try:
         desc, keys = describe(f)
-        impl = run_impl(f, keys)
-        impl_r = run_impl(f, ids)
+        raw = run_validate(f)
+        impl = keyed(f, raw, keys)
+        impl_r = keyed(f, raw, ids)
     finally:
         path = f._h5file.filename
         f.close()
@@ -1110,8 +1373,10 @@ def run_case(ctx, recipe):
 
 def correspondence(ctx):
     corpus = [("corpus", c[1], []) for c in core.load_corpus(PROP) if c and c[0] == "recipe"]
-    cases = corpus + gen_cases(ctx, "all", ctx.budget(20, 80), ctx.budget(12, 30), ctx.budget(14, 30),
-                               ctx.budget(14, 40), exhaustive_bases=ctx.budget(0, 2), exhaustive_pairs=300)
+    cases = corpus + gen_cases(ctx, "all", ctx.budget(14, 80), ctx.budget(10, 30), ctx.budget(12, 30),
+                               ctx.budget(12, 40), exhaustive_bases=ctx.budget(0, 2), exhaustive_pairs=300,
+                               n_multiref=ctx.budget(24, 150), n_multi=ctx.budget(16, 100),
+                               n_sweep=ctx.budget(3, 20), sweep_size=ctx.budget(24, 40))
     descs, impls = [], []
     dist = {"labels": {}, "injections": {}, "impl_errors": {}, "messages": {}}
     for label, recipe, injs in cases:
@@ -1141,13 +1406,17 @@ def correspondence(ctx):
     samples = [{"case": cases[k][2], "label": cases[k][0], "model": model[k]} for k in
                sorted(ctx.rng.sample(range(len(cases)), min(6, len(cases))))]
     return {"evaluations": len(cases), "distinct_nontrivial": len(seen),
-            "rule": "generated well-formed files (1-2 blocks; arrays of rank 1-3 with range/sampled/set descriptor "
-                    "mixes, unit choices from a 33-unit table; tags and multi-tags with 0-3 references, features; "
-                    "source and section trees) + every injection kind at least once + sampled single and pairwise "
-                    "injections per base (thorough: all singles and 300 sampled pairs on 2 bases); each case is a real "
-                    "HDF5 file; model(description) and validate()['errors'] compared exactly (objects, order, "
-                    "messages with arguments, or the exception class). non-trivial = at least one error reported "
-                    "or an exception; distinct by canonical result",
+            "rule": "generated well-formed files (1-2 blocks; arrays of rank 1-3 in families that share per-dimension "
+                    "quantities, range/sampled/set descriptor mixes, units = prefix x base unit x power over the "
+                    "complete SI tables with a bias to look-alike symbols; tags and multi-tags with 0-4 references, "
+                    "features; source and section trees) + every injection kind at least once (per-reference "
+                    "injections at the first / an inner / the last reference) + sampled single and pairwise injections "
+                    "per base + multi-reference cases (a subset of 2-4 references inconsistent in one rule) + one "
+                    "inconsistency kind at a subset of its sites + unit sweeps (24-40 tags per file, convertible / "
+                    "unconvertible / non-SI unit pairs) (thorough: all singles and 300 sampled pairs on 2 bases); each "
+                    "case is a real HDF5 file; model(description) and validate()['errors'] compared exactly (objects, "
+                    "order, messages with arguments, or the exception class). non-trivial = at least one error "
+                    "reported or an exception; distinct by canonical result",
             "samples": samples, "distribution": dist, "disagreements": disagreements, "exhaustive": False}
 
 
@@ -1156,7 +1425,8 @@ def correspondence(ctx):
 
 def check_recipe(ctx, recipe, injs=None):
     """Failures of the property on this recipe: validate() must return, and report exactly `expect(recipe)`"""
-    want = expect(recipe)
+    und = {}
+    want = expect(recipe, und)
     _desc, _impl, impl = run_case(ctx, recipe)
     inp = ["recipe", recipe, injs or []]
     if "err" in impl:
@@ -1168,7 +1438,8 @@ def check_recipe(ctx, recipe, injs=None):
         got[(kind, tuple(path))] = set(tuple(m) for m in msgs)
     fails = []
     for key in sorted(set(want) | set(got), key=str):
-        w, g = want.get(key, set()), got.get(key, set())
+        skip = und.get(key, set())
+        w, g = want.get(key, set()) - skip, got.get(key, set()) - skip
         if w != g:
             missing, extra = sorted(w - g, key=str), sorted(g - w, key=str)
             what = []
@@ -1281,10 +1552,14 @@ def oracle(ctx, broken, hints):
     cases += _fixed_cases(ctx)
     if broken:
         cases += gen_cases(ctx, "property", ctx.budget(20, 100), ctx.budget(15, 120), ctx.budget(20, 30),
-                           ctx.budget(20, 30), exhaustive_bases=ctx.budget(1, 3))
+                           ctx.budget(20, 30), exhaustive_bases=ctx.budget(1, 3),
+                           n_multiref=ctx.budget(80, 400), n_multi=ctx.budget(40, 200),
+                           n_sweep=ctx.budget(10, 40), sweep_size=ctx.budget(30, 40))
     else:
         cases += gen_cases(ctx, "property", ctx.budget(6, 30), ctx.budget(6, 20), ctx.budget(8, 25),
-                           ctx.budget(8, 30), exhaustive_bases=ctx.budget(0, 1), exhaustive_pairs=300)
+                           ctx.budget(8, 30), exhaustive_bases=ctx.budget(0, 1), exhaustive_pairs=300,
+                           n_multiref=ctx.budget(24, 150), n_multi=ctx.budget(12, 80),
+                           n_sweep=ctx.budget(3, 20), sweep_size=ctx.budget(24, 40))
     failures = []
     seen = set()
     kinds = {}
